@@ -44,4 +44,10 @@ def obligations(tier, ctx):
                           pre=(["0 <= a <= 2", "0 <= b <= 1", "n in (0, 1)"] if tier == "quick" else ["0 <= a <= 4", "0 <= b <= 4", "0 <= n <= 2"]),
                           call=f"H.roundtrip(a, b, n, {mode}, {typed})", backend="F", timeout=400,
                           family="round trips: two requests (ids 'r1', 5, 0, '5', -7), each answered the carrier's own way"))
+    from symcheck import consts
+    nsz = len(consts.size_cases(70000, extra=(4096, 8192, 65536, 131072)))
+    for mode in ((1,) if tier == "quick" else (0, 1, 2)):
+        for pat in ((5,) if tier == "quick" else (0, 2, 4, 5)):
+            obs.append(Ob(name=f"roundtrip_long_mode{mode}_p{pat}", params=[("k", "int")], pre=[f"0 <= k < {nsz}"], call=f"H.roundtrip_long(k, {pat}, {mode}, True)", backend="P", timeout=900,
+                          family="size: round trips whose results and notifications carry a string of c-1, c, c+1 characters (c: integer constants of the source and environment sizes)"))
     return obs
